@@ -189,9 +189,12 @@ Proof.
         destruct (decode_datatype_term_index id (ds_datatypes st0)) as [[d' dt]|]; [|discriminate].
         intros H; inversion H; reflexivity.
     - intros H; inversion H; reflexivity.
-    - destruct a as [a'|], b as [b'|], c as [c'|]; try discriminate. unfold bind. cbn [OP] in IHa, IHb, IHc.
+    - unfold bind.
+      destruct a as [a'|]; [|discriminate]. cbn [OP] in IHa.
       destruct (decode_term ig a' st0) as [[s1 ta]|] eqn:Ea; [|discriminate].
+      destruct b as [b'|]; [|discriminate]. cbn [OP] in IHb.
       destruct (decode_term ig b' s1) as [[s2 tb]|] eqn:Eb; [|discriminate].
+      destruct c as [c'|]; [|discriminate]. cbn [OP] in IHc.
       destruct (decode_term ig c' s2) as [[s3 tc]|] eqn:Ec; [|discriminate].
       destruct ig; [|discriminate]. intros H; inversion H; subst.
       rewrite (IHc _ _ _ Ec), (IHb _ _ _ Eb), (IHa _ _ _ Ea). reflexivity. }
@@ -227,7 +230,12 @@ Proof. intros H. unfold decode_literal. rewrite H. cbn. eauto. Qed.
 (* a repeated-term marker inside a quoted triple *)
 Theorem reject_repeated_in_quoted a b c st :
   a = None \/ b = None \/ c = None -> exists e, decode_term ig (WTriple a b c) st = Err e.
-Proof. intros H. cbn [decode_term]. destruct a, b, c; eauto; destruct H as [H|[H|H]]; discriminate. Qed.
+Proof.
+  intros H. cbn [decode_term]. unfold bind.
+  destruct a as [a'|]; [|eauto]. destruct (decode_term ig a' st) as [[s1 ta]|]; [|eauto].
+  destruct b as [b'|]; [|eauto]. destruct (decode_term ig b' s1) as [[s2 tb]|]; [|eauto].
+  destruct c as [c'|]; [|eauto]. destruct H as [H|[H|H]]; discriminate.
+Qed.
 
 (* a repeated-term marker with no previous term *)
 Theorem reject_repeated_without_previous st :
